@@ -1,6 +1,283 @@
-//! C13 — stub (not yet implemented; not registered in MANIFEST.json).
-use crate::fw::{CheckDef, Ctx};
+//! C13 — same input, same output: runs are deterministic.
+//!
+//! Deciding pass: for every (ledger, command) of the corpus, run the command in-process through the
+//! real CLI entry point once with the default (insertion) iteration order of every internal map and
+//! then once for EVERY combination of up to d non-default iteration orders (stateless choice-tree
+//! search over the `okane_core::verif` oracle; d = 1 quick, 2 thorough). All observations (stdout
+//! bytes, success/failure, error-chain text) must be identical.
 
-pub const DEF: CheckDef = CheckDef { id: "C13", run, technique: "stub", rule: "stub", assumptions: &[], shards: 0, hang_s: 20, single_worker: false };
+use std::cell::RefCell;
+use std::collections::BTreeSet;
+use std::path::Path;
+use std::rc::Rc;
 
-fn run(_ctx: &mut Ctx) {}
+use crate::fw::{CheckDef, Ctx, Outcome};
+use crate::oka;
+
+pub const DEF: CheckDef = CheckDef {
+    id: "C13",
+    run,
+    technique: "stateless choice-tree search over the iteration orders of okane's internal hash maps (order-controllable map behind --cfg okane_verif): every execution with <= d non-default orders is run on the real CLI code path and all observations must be byte-identical; plus a labelled free-running sample of fresh hooks-off processes",
+    rule: "case = (ledger, command). Ledgers: all sequences of <= 2 (thorough <= 3) transactions from a 10-transaction alphabet (multi-commodity accounts, multi-account, inferred multi-commodity postings, prices incl. tied chains, a failing multi-commodity assertion, an unbalanced 3-commodity transaction). Commands: format, accounts, balance, balance -X (up-to-date and --historical), register, register <account>, primitive eval (with and without -X). Inside a case the explorer enumerates the choice tree of map-iteration orders (n! orders for maps of <= 4 keys, identity/reversal/rotations above) with at most d deviations from insertion order. states = choice-tree nodes visited (executions), transitions = executions compared with the default run",
+    assumptions: &[
+        "exhaustive over iteration orders of the maps behind the hook (report/balance.rs, report/eval/amount.rs, report/price_db.rs, report/intern.rs); maps left on std (lookup-only) and the import path are covered only by the free-running sample, which is sampling and labelled so",
+        "--now is always passed (its default, today's date, is an input, not nondeterminism)",
+    ],
+    shards: 64,
+    hang_s: 60,
+    single_worker: false,
+};
+
+/// One execution under a choice prefix; returns (observation, trace of (n, chosen)).
+fn exec(prefix: &[usize], f: &dyn Fn() -> String) -> (String, Vec<(usize, usize)>) {
+    let trace: Rc<RefCell<Vec<(usize, usize)>>> = Rc::new(RefCell::new(Vec::new()));
+    let t2 = trace.clone();
+    let pre = prefix.to_vec();
+    okane_core::verif::set_oracle(Some(Box::new(move |n| {
+        let i = t2.borrow().len();
+        let c = if i < pre.len() { pre[i] } else { 0 };
+        if c >= n {
+            // the recorded prefix does not fit this execution: uncontrolled nondeterminism in the harness
+            panic!("harness bug: divergence while replaying a choice prefix (choice {} of {} at point {})", c, n, i);
+        }
+        t2.borrow_mut().push((n, c));
+        c
+    })));
+    let out = f();
+    okane_core::verif::set_oracle(None);
+    let t = trace.borrow().clone();
+    (out, t)
+}
+
+pub struct Explored {
+    pub executions: u64,
+    pub max_points: usize,
+    pub outcomes: BTreeSet<String>,
+    pub witness: Option<(Vec<usize>, String)>,
+}
+
+/// All executions with at most `bound` non-default choices.
+pub fn explore(bound: usize, f: &dyn Fn() -> String, tick: &dyn Fn()) -> Explored {
+    let mut ex = Explored { executions: 0, max_points: 0, outcomes: BTreeSet::new(), witness: None };
+    let (base, trace0) = exec(&[], f);
+    ex.executions = 1;
+    ex.max_points = trace0.len();
+    ex.outcomes.insert(base.clone());
+    fn rec(prefix: Vec<usize>, trace: &[(usize, usize)], dev: usize, bound: usize, f: &dyn Fn() -> String, base: &str, ex: &mut Explored, tick: &dyn Fn()) {
+        if dev >= bound {
+            return;
+        }
+        for i in prefix.len()..trace.len() {
+            for alt in 1..trace[i].0 {
+                let mut p: Vec<usize> = trace[..i].iter().map(|x| x.1).collect();
+                p.push(alt);
+                let (out, t) = exec(&p, f);
+                tick();
+                ex.executions += 1;
+                ex.max_points = ex.max_points.max(t.len());
+                if out != base && ex.witness.is_none() {
+                    ex.witness = Some((p.clone(), out.clone()));
+                }
+                ex.outcomes.insert(out);
+                if ex.executions > 200_000 {
+                    return;
+                }
+                rec(p, &t, dev + 1, bound, f, base, ex, tick);
+            }
+        }
+    }
+    rec(vec![], &trace0, 0, bound, f, &base, &mut ex, tick);
+    ex
+}
+
+/// Run the CLI in-process exactly like the binary does, returning one observation string.
+pub fn run_cli(args: &[String]) -> String {
+    use clap::Parser as _;
+    let cli = match okane::cmd::Cli::try_parse_from(args) {
+        Ok(c) => c,
+        Err(e) => return format!("CLAP-ERROR {}", e),
+    };
+    let mut out: Vec<u8> = vec![];
+    match cli.run(&mut out) {
+        Ok(()) => format!("EXIT 0\n{}", String::from_utf8_lossy(&out)),
+        Err(err) => {
+            use std::error::Error;
+            let mut s = format!("EXIT 1\n{}--stderr--\n{}\n", String::from_utf8_lossy(&out), err);
+            let mut cur: &dyn Error = &err;
+            while let Some(src) = cur.source() {
+                s.push_str(&format!("Caused by {}\n", src));
+                cur = src;
+            }
+            s
+        }
+    }
+}
+
+fn txn_alphabet() -> Vec<&'static str> {
+    vec![
+        // multi-commodity account, inferred multi-commodity posting
+        "2024/01/10 a\n  A  1 X\n  A  2 Y\n  A  3 Z\n  B\n\n",
+        "2024/01/11 b\n  B  5 X\n  C  -5 X\n\n",
+        // prices: X->Y, Y->Z, X->Z (tied chains possible)
+        "2024/01/12 c\n  A  1 X @ 2 Y\n  B  -2 Y\n\n",
+        "2024/01/12 d\n  A  1 Y @ 3 Z\n  B  -3 Z\n\n",
+        "2024/01/12 e\n  A  1 X @ 7 Z\n  B  -7 Z\n\n",
+        // two price chains X->Y->Z (6) and X->W->Z (8) that tie in every ranking criterion, and a holding of X
+        "2024/01/13 f\n  A  1 X @ 2 Y\n  A  1 Y @ 3 Z\n  A  1 X @ 2 W\n  A  1 W @ 4 Z\n  B\n\n",
+        // implied exchange
+        "2024/01/14 g\n  A  2 X\n  B  -6 Y\n\n",
+        // failing: assertion on a multi-commodity account (diagnostic prints the computed balance)
+        "2024/01/15 h\n  A  1 X = 100 X\n  A  1 Y\n  A  1 Z\n  B\n\n",
+        // failing: three-commodity residual
+        "2024/01/16 i\n  A  1 X\n  B  2 Y\n  C  3 Z\n\n",
+        // cost with a multi-commodity expression (must be rejected the same way every time)
+        "2024/01/17 j\n  A  5 W @ (1 X + 2 Y)\n  B\n\n",
+    ]
+}
+
+fn commands(path: &str) -> Vec<Vec<String>> {
+    let s = |v: &[&str]| -> Vec<String> { v.iter().map(|x| x.to_string()).collect() };
+    vec![
+        s(&["okane", "balance", path]),
+        s(&["okane", "register", path]),
+        s(&["okane", "register", path, "A"]),
+        s(&["okane", "accounts", path]),
+        s(&["okane", "format", path]),
+        s(&["okane", "balance", "-X", "Z", "--now", "2024-02-01", path]),
+        s(&["okane", "balance", "-X", "Y", "--historical", "--now", "2024-02-01", path]),
+        s(&["okane", "balance", "-X", "X", "--now", "2024-01-12", "--start", "2024-01-11", path]),
+        s(&["okane", "primitive", "eval", "--date", "2024-02-01", "-f", path, "1 X + 2 Y + 3 Z"]),
+        s(&["okane", "primitive", "eval", "--date", "2024-02-01", "-X", "Z", "-f", path, "1 X + 2 Y"]),
+    ]
+}
+
+const PRELUDE: &str = "2024/01/01 declare\n  Z0  0 X\n  Z0  0 Y\n  Z0  0 Z\n  Z0  0 W\n\n";
+
+fn judge(text: &str, cmd_index: usize, path: &Path, bound: usize, ctx_tick: &dyn Fn(), execs: &mut u64) -> Outcome {
+    std::fs::write(path, text).expect("write scratch ledger");
+    let args = commands(&path.to_string_lossy())[cmd_index].clone();
+    let pstr = path.to_string_lossy().to_string();
+    // the scratch path contains the worker's pid: it is an input, not part of the observation
+    let f = || run_cli(&args).replace(&pstr, "<file>");
+    let ex = explore(bound, &f, ctx_tick);
+    *execs = ex.executions;
+    let cmdname = args[1..].iter().filter(|a| !a.contains('/')).cloned().collect::<Vec<_>>().join(" ");
+    if ex.outcomes.len() > 1 {
+        let base = ex.outcomes.iter().next().unwrap().clone();
+        let (choices, other) = ex.witness.clone().unwrap();
+        let base_run = {
+            let (b, _) = exec(&[], &f);
+            b
+        };
+        let kind = if base_run.starts_with("EXIT 0") != other.starts_with("EXIT 0") {
+            "success-or-failure-differs"
+        } else if base_run.starts_with("EXIT 0") {
+            "stdout-differs"
+        } else {
+            "error-text-differs"
+        };
+        let _ = base;
+        return Outcome::violation(
+            format!("{}/{}", kind, args[1..].iter().filter(|a| !a.contains('/') && !a.contains("2024")).cloned().collect::<Vec<_>>().join("_")),
+            format!("command: okane {}\n{} distinct observations over {} executions; map-order choice vector {:?}\n--- default order ---\n{}\n--- other order ---\n{}", cmdname, ex.outcomes.len(), ex.executions, choices, base_run, other),
+        );
+    }
+    let ok = ex.outcomes.iter().next().map(|o| o.starts_with("EXIT 0")).unwrap_or(false);
+    Outcome::pass(format!("deterministic/{}/{}/points{}", args[1], if ok { "ok" } else { "fails" }, ex.max_points.min(9)))
+}
+
+pub const OFF_BINARY: &str = "/verif/target/off/release/okane";
+
+/// Free-running pass (SAMPLING, labelled as such): the hooks-off binary in `runs` fresh processes
+/// (fresh random hash state each), observations compared byte for byte.
+fn free_running(args: &[String], runs: usize, tick: &dyn Fn()) -> Outcome {
+    if !Path::new(OFF_BINARY).exists() {
+        panic!("harness bug: hooks-off binary {} is missing (./okv build creates it)", OFF_BINARY);
+    }
+    let mut first: Option<String> = None;
+    for i in 0..runs {
+        let out = std::process::Command::new(OFF_BINARY).args(&args[1..]).env_remove("RUST_LOG").output().expect("spawn okane");
+        tick();
+        let obs = format!("status={:?}\n--stdout--\n{}--stderr--\n{}", out.status.code(), String::from_utf8_lossy(&out.stdout), String::from_utf8_lossy(&out.stderr));
+        match &first {
+            None => first = Some(obs),
+            Some(f) => {
+                if *f != obs {
+                    return Outcome::violation(
+                        format!("free-running/process-output-differs/{}", args[1]),
+                        format!("fresh process #{} differs from process #0 for: okane {}\n--- #0 ---\n{}\n--- #{} ---\n{}", i, args[1..].join(" "), f, i, obs),
+                    );
+                }
+            }
+        }
+    }
+    Outcome::pass(format!("free-running-sample/{}/{}-processes-identical", args[1], runs))
+}
+
+fn run(ctx: &mut Ctx) {
+    let alpha = txn_alphabet();
+    let n = alpha.len() as u64;
+    let maxlen = ctx.tier.pick(2u32, 3u32);
+    let bound = ctx.tier.pick(1usize, 2usize);
+    ctx.fact("deviation_bound", bound as u64);
+    let dir = oka::scratch_dir("c13");
+    let path = dir.join(format!("case-{}.ledger", ctx.shard));
+    let ncmd = commands("x").len();
+    for len in 1..=maxlen {
+        for k in 0..n.pow(len) {
+            let mut text = String::from(PRELUDE);
+            let mut x = k;
+            for _ in 0..len {
+                text.push_str(alpha[(x % n) as usize]);
+                x /= n;
+            }
+            for ci in 0..ncmd {
+                if !ctx.next_is_mine() {
+                    ctx.skip_cases(1);
+                    continue;
+                }
+                let mut execs = 0u64;
+                let tick_ctx: *const Ctx = ctx;
+                let tick = move || unsafe { (*tick_ctx).tick() };
+                let desc_cmd = commands("<file>")[ci].join(" ");
+                ctx.case(|| format!("$ {}\n{}", desc_cmd, text), || judge(&text, ci, &path, bound, &tick, &mut execs));
+                ctx.count("states", execs);
+                ctx.count("transitions", execs);
+                ctx.count("validated", execs);
+            }
+        }
+    }
+    // ---- free-running sample (not the basis of the verdict of the pass above; a difference IS a violation) ----
+    let runs = ctx.tier.pick(6usize, 12usize);
+    let fr_path = dir.join(format!("free-{}.ledger", ctx.shard));
+    for k in 0..n.pow(2) {
+        if k % 3 != 0 {
+            continue;
+        }
+        let text = format!("{}{}{}", PRELUDE, alpha[(k % n) as usize], alpha[(k / n) as usize]);
+        for ci in [0usize, 1, 5, 8] {
+            if !ctx.next_is_mine() {
+                ctx.skip_cases(1);
+                continue;
+            }
+            let tick_ctx: *const Ctx = ctx;
+            let tick = move || unsafe { (*tick_ctx).tick() };
+            let desc_cmd = commands("<file>")[ci].join(" ");
+            ctx.case(
+                || format!("[free-running sample, {} fresh processes] $ {}\n{}", runs, desc_cmd, text),
+                || {
+                    std::fs::write(&fr_path, &text).expect("write scratch ledger");
+                    free_running(&commands(&fr_path.to_string_lossy())[ci], runs, &tick)
+                },
+            );
+        }
+    }
+    // import on the repository's own statement samples
+    let tdir = "/repo/cli/tests/testdata/import";
+    for f in ["csv_multi_currency.csv", "csv_template.csv", "index_amount.csv", "label_credit_debit.csv", "iso_camt.xml", "viseca.txt"] {
+        let args: Vec<String> = ["okane", "import", "--config", &format!("{}/test_config.yml", tdir), &format!("{}/{}", tdir, f)].iter().map(|x| x.to_string()).collect();
+        let tick_ctx: *const Ctx = ctx;
+        let tick = move || unsafe { (*tick_ctx).tick() };
+        ctx.case(|| format!("[free-running sample, {} fresh processes] $ {}", runs * 2, args.join(" ")), || free_running(&args, runs * 2, &tick));
+    }
+}
